@@ -460,7 +460,7 @@ void AspifTextOutput::writeDirectives() {
 				if (get<uint32_t>() != 0) { os_ << "{"; term = "}"; }
 				for (uint32_t n = get<uint32_t>(); n--; sep = !*term ? "|" : ";") { printName(os_ << sep, get<Atom_t>()); }
 				if (*sep) { os_ << term; sep = " :- "; }
-				else      { os_ << ":- "; }
+				else      { os_ << term << ":- "; }
 				term = ".";
 				switch (uint32_t bt = get<uint32_t>()) {
 					case Body_t::Normal:
@@ -468,8 +468,8 @@ void AspifTextOutput::writeDirectives() {
 						break;
 					case Body_t::Count: // fall through
 					case Body_t::Sum:
-						os_ << sep << get<Weight_t>();
-						sep = "{";
+						os_ << sep << get<Weight_t>() << "{";
+						sep = "";
 						for (uint32_t n = get<uint32_t>(); n--; sep = "; ") {
 							printName(os_ << sep, get<Lit_t>());
 							if (bt == Body_t::Sum) { os_ << "=" << get<Weight_t>(); }
@@ -479,7 +479,7 @@ void AspifTextOutput::writeDirectives() {
 				}
 				break;
 			case Directive_t::Minimize:
-				sep = "#minimize{"; term = ".";
+				os_ << "#minimize{"; term = ".";
 				for (uint32_t n = get<uint32_t>(); n--; sep = "; ") {
 					printName(os_ << sep, get<Lit_t>());
 					os_ << "=" << get<Weight_t>();
@@ -487,7 +487,7 @@ void AspifTextOutput::writeDirectives() {
 				os_ << "}@" << get<Weight_t>();
 				break;
 			case Directive_t::Project:
-				sep = "#project{"; term = "}.";
+				os_ << "#project{"; term = "}.";
 				for (uint32_t n = get<uint32_t>(); n--; sep = ", ") { printName(os_ << sep, get<Lit_t>()); }
 				break;
 			case Directive_t::Output:
@@ -508,7 +508,7 @@ void AspifTextOutput::writeDirectives() {
 				}
 				break;
 			case Directive_t::Assume:
-				sep = "#assume{"; term = "}.";
+				os_ << "#assume{"; term = "}.";
 				for (uint32_t n = get<uint32_t>(); n--; sep = ", ") { printName(os_ << sep, get<Lit_t>()); }
 				break;
 			case Directive_t::Heuristic:
